@@ -5,6 +5,8 @@
 //	op := (1 p k) Pump | (2 p d) Stale | (3 p o) RawRec | (4 p o) MainRec | (5 code wmerr ((p low)...)) KErr
 //	    | (6) Refresh | (7 (p...)) SetOwned | (8) Revoke | (9 p f t) Request | (10 cerr ((p committed high)...)) MAssign
 //	    | (11 msg) Deliver, msg := (1 p ((f t)...)) | (2 p) | (3) | (4)  | (12) Crash
+//	    | (14 p) RecCrash: next record of p delivered, owner abandoned while (if) blocked on the emission
+//	    | (15 p d) Wild: like Ahead without the restriction (may be on the broadcast grid or beyond to: known finding F11)
 //	    | (13 p d) Ahead: a straggler n+1+|d| ahead of the client's position n, only inside the window and off the broadcast grid
 //
 // obs := (0 (perop ...)), perop := (emits calls sent err acks waits active owned tracker cli)
@@ -18,6 +20,7 @@ import (
 	"sort"
 	"strconv"
 	"strings"
+	"sync"
 	"time"
 
 	"github.com/confluentinc/confluent-kafka-go/kafka"
@@ -98,10 +101,14 @@ type waitCtx struct {
 	context.Context
 	ch    chan firebolt.Event
 	waits *[]int64
+	mu    *sync.Mutex
+	base  *int // events put into the channel by the harness itself (RecCrash pre-fills it)
 }
 
 func (w *waitCtx) Deadline() (time.Time, bool) {
-	*w.waits = append(*w.waits, int64(len(w.ch)))
+	w.mu.Lock()
+	*w.waits = append(*w.waits, int64(len(w.ch)-*w.base))
+	w.mu.Unlock()
 	return time.Time{}, false
 }
 
@@ -116,7 +123,10 @@ type instance struct {
 type world struct {
 	maxrec, every, maxlag int64
 	out                   chan firebolt.Event
+	outCap                int
 	waits                 []int64
+	mu                    sync.Mutex
+	base                  int
 	log                   []fbcontext.Message
 	in                    *instance
 }
@@ -125,7 +135,7 @@ func (w *world) newInstance() {
 	in := &instance{cl: newRecClient(), main: &mainClient{Consumer: fake.NewConsumer()}, ctx: &fake.Ctx{}}
 	in.rc = kafkaconsumer.NewRecoveryConsumerV(in.cl, topicName, w.out, int(w.maxrec), hugeRate, in.ctx)
 	in.rc.SetUpdateEveryV(w.every)
-	in.rc.SetWaitCtxV(&waitCtx{Context: context.Background(), ch: w.out, waits: &w.waits})
+	in.rc.SetWaitCtxV(&waitCtx{Context: context.Background(), ch: w.out, waits: &w.waits, mu: &w.mu, base: &w.base})
 	in.k = kafkaconsumer.NewKafkaConsumerV(in.main, topicName, w.out, int(w.maxlag), in.rc, in.ctx)
 	w.in = in
 }
@@ -201,7 +211,8 @@ func Run(in sx.Tree) sx.Tree {
 			total += int(op.At(2).Int())
 		}
 	}
-	w.out = make(chan firebolt.Event, total+8)
+	w.outCap = total + 8
+	w.out = make(chan firebolt.Event, w.outCap)
 	w.newInstance()
 	per := []sx.Tree{}
 	for _, op := range in.At(2).Kids {
@@ -209,6 +220,8 @@ func Run(in sx.Tree) sx.Tree {
 		w.in.cl.calls = nil
 		isErr := false
 		acksBefore := len(w.in.ctx.Acked)
+		var crashSent, crashCalls []sx.Tree
+		var crashWaits []int64
 		switch op.At(0).Int() {
 		case 1:
 			for i := int64(0); i < op.At(2).Int(); i++ {
@@ -223,6 +236,13 @@ func Run(in sx.Tree) sx.Tree {
 			w.in.rc.ProcessEventV(recMsg(p, o))
 		case 3:
 			w.in.rc.ProcessEventV(recMsg(op.At(1).Int(), op.At(2).Int()))
+		case 15:
+			p, d := op.At(1).Int(), op.At(2).Int()
+			if n, ok := w.in.cl.pos[int32(p)]; ok {
+				if _, ok := w.in.rc.ActiveV()[int32(p)]; ok {
+					w.in.rc.ProcessEventV(recMsg(p, n+1+abs(d)))
+				}
+			}
 		case 13:
 			p, d := op.At(1).Int(), op.At(2).Int()
 			if n, ok := w.in.cl.pos[int32(p)]; ok {
@@ -303,6 +323,64 @@ func Run(in sx.Tree) sx.Tree {
 				msg = fbcontext.Message{MessageType: "somethingelse", Key: "k"}
 			}
 			isErr = w.in.k.Receive(msg) != nil
+		case 14:
+			// the next record of p is delivered while the source channel is full (back-pressure): the handler either
+			// returns (nothing to emit) or ends up blocked on the send; then the instance is abandoned like in a crash
+			p := op.At(1).Int()
+			if n, ok := w.in.cl.pos[int32(p)]; ok {
+				old := w.in
+				w.mu.Lock()
+				w.base = w.outCap
+				w.mu.Unlock()
+				for len(w.out) < w.outCap {
+					w.out <- firebolt.Event{}
+				}
+				done := make(chan struct{})
+				go func(ch chan struct{}) {
+					defer func() { _ = recover(); close(ch) }()
+					old.rc.ProcessEventV(recMsg(p, n))
+				}(done)
+				state := func() (int, int) {
+					w.mu.Lock()
+					nw := len(w.waits)
+					w.mu.Unlock()
+					return nw, old.ctx.SentCount()
+				}
+				lastW, lastS := state()
+				lastChange := time.Now()
+				deadline := time.Now().Add(3 * time.Second)
+				finished, blocked := false, false
+				for !finished && !blocked && time.Now().Before(deadline) {
+					select {
+					case <-done:
+						finished = true
+					case <-time.After(time.Millisecond):
+						nw, ns := state()
+						if nw != lastW || ns != lastS {
+							lastW, lastS, lastChange = nw, ns, time.Now()
+						} else if nw > 0 && time.Since(lastChange) > 30*time.Millisecond {
+							blocked = true // the limiter was consulted and nothing has moved since: parked on the send
+						}
+					}
+				}
+				if !finished && !blocked {
+					isErr = true // neither returned nor reached the send: an observation, never a pass
+				}
+				// what the old instance sent before it stopped is on the topic
+				for _, m := range old.ctx.TakeSent() {
+					w.log = append(w.log, m)
+					crashSent = append(crashSent, e2.DecodeSnapshot(m.Key, m.Payload))
+				}
+				crashCalls = old.cl.calls
+				w.mu.Lock()
+				crashWaits = append([]int64(nil), w.waits...)
+				w.mu.Unlock()
+				// the blocked goroutine keeps the old (full) channel and the old wait recorder; the successor gets fresh ones
+				w.out = make(chan firebolt.Event, w.outCap)
+				w.base = 0
+				w.waits = nil
+			}
+			fallthrough
 		case 12:
 			// the instance is gone; its successor reads the compacted topic: the last payload per key
 			last := map[string]fbcontext.Message{}
@@ -334,17 +412,17 @@ func Run(in sx.Tree) sx.Tree {
 			emits = append(emits, sx.T(sx.L(p), sx.L(o), sx.B(ev.Recovery)))
 		}
 		sentMsgs := w.in.ctx.TakeSent()
-		sent := []sx.Tree{}
+		sent := append([]sx.Tree{}, crashSent...)
 		for _, m := range sentMsgs {
 			w.log = append(w.log, m)
 			sent = append(sent, e2.DecodeSnapshot(m.Key, m.Payload))
 		}
 		sort.SliceStable(sent, func(i, j int) bool { return sent[i].At(0).Int() < sent[j].At(0).Int() })
 		waits := []sx.Tree{}
-		for _, x := range w.waits {
+		for _, x := range append(crashWaits, w.waits...) {
 			waits = append(waits, sx.L(x))
 		}
-		per = append(per, sx.T(sx.T(emits...), sx.T(w.in.cl.calls...), sx.T(sent...), sx.B(isErr),
+		per = append(per, sx.T(sx.T(emits...), sx.T(append(crashCalls, w.in.cl.calls...)...), sx.T(sent...), sx.B(isErr),
 			sx.L(int64(len(w.in.ctx.Acked)-acksBefore)), sx.T(waits...), w.activeTree(), w.ownedTree(), w.trackerTree(), w.cliTree()))
 	}
 	return sx.T(sx.L(0), sx.T(per...))
